@@ -224,7 +224,11 @@ def inject(rng, case):
             rows[ri][m['fiat_fee']] = 1.5
         elif name == "more-received-than-sent":
             m = lay['INTRA']
-            rows[ri][c] = float(rows[ri][m['crypto_sent']]) * 2 + 1
+            # any excess is a fault, however small: one unit of the 11th decimal, dust, fractions of a cent's worth, or more than twice the amount
+            sent_ = float(rows[ri][m['crypto_sent']])
+            rows[ri][c] = sent_ + rng.choice([1e-11, 2e-11, 2e-8, 3e-4, 4e-3, 5e-3, 0.02, 1.0, sent_ + 1])
+            if f"{rows[ri][c]:.11f}" == f"{sent_:.11f}":
+                rows[ri][c] = sent_ * 2 + 1
         else:
             rows[ri][c] = v
         case["fault"] = name
